@@ -344,3 +344,94 @@ func localFieldStored(a *ssa.Alloc, field, depth int) ssa.Value {
 	}
 	return nil
 }
+
+// c18bases: one capacity base for every percentage, and every source node of a pool is marked processed.
+func c18bases(c *Ctx, pkg string) {
+	r := c.R
+	r.Decides("every percentage and threshold of the balancer is computed against the same capacity base: node.Status.Allocatable is read in GetNodeRawAllocatableFromNode only (on amplified nodes the raw and the amplified allocatable differ by the amplification ratio, so a mean taken over one base and thresholds over the other classify nodes below the true mean as overloaded); every overloaded node a pool looked at is recorded as processed, whatever its usage afterwards (a later overlapping pool would start over from the same, not yet refreshed metric and evict again)")
+	r.Rule("WHO(capacity base): in package descheduler/framework/plugins/loadaware the field NodeStatus.Allocatable is loaded in GetNodeRawAllocatableFromNode only; all other functions obtain capacity through that accessor")
+	nAcc := 0
+	for _, fn := range c.PkgFuncs(pkg) {
+		for _, cl := range an.Calls(fn, false) {
+			if an.ShortCallee(cl.Common()) == "GetNodeRawAllocatableFromNode" {
+				nAcc++
+			}
+		}
+		if fn.Name() == "GetNodeRawAllocatableFromNode" {
+			continue
+		}
+		n := 0
+		for _, b := range fn.Blocks {
+			for _, in := range b.Instrs {
+				fa, ok := in.(*ssa.FieldAddr)
+				if !ok {
+					continue
+				}
+				o, f, _, ok := an.FieldOf(fa)
+				if !ok || f != "Allocatable" || !strings.HasSuffix(o, "NodeStatus") {
+					continue
+				}
+				n++
+				r.Fail("WHO", sprintf("%s/raw-capacity#%d", fkey(fn), n), c.InstrPos(fa), "node.Status.Allocatable is read directly instead of GetNodeRawAllocatableFromNode(node): on a node with amplified resources this percentage is taken over another base than the thresholds it is compared with")
+			}
+		}
+	}
+	r.Floor("WHO", "capacity reads through GetNodeRawAllocatableFromNode (the scan is alive)", nAcc, 5)
+
+	r.Rule("PATH(processed): in LowNodeLoad.processOneNodePool, behind evictPodsFromSourceNodes, processedNodes.Insert(<node name>) is reached in every iteration of a loop over the overloaded class, with no condition in front of it")
+	if fn := c.Fn(pkg, "LowNodeLoad", "processOneNodePool"); fn != nil {
+		var ins ssa.CallInstruction
+		for _, cl := range an.Calls(fn, false) {
+			if an.ShortCallee(cl.Common()) == "Insert" && isParamOrDerived(fn, an.Args(cl.Common())[0], "processedNodes") {
+				ins = cl
+			}
+		}
+		key := fkey(fn) + "/every-source-node-processed"
+		if ins == nil {
+			r.Fail("PATH", key, c.Pos(fn.Pos()), "the overloaded nodes of the pool are no longer recorded as processed")
+			return
+		}
+		hdr := an.InnermostLoopHeader(ins.Block())
+		ok := hdr != nil
+		why := "the insert is not inside a loop"
+		if ok {
+			start := &an.Start{Block: hdr.Succs[0], Index: 0}
+			reach := an.Explore(fn, start, nil, func(in ssa.Instruction) bool { return in == ssa.Instruction(ins) })
+			ok = !reach.BlockReached(hdr) && len(reach.Returns()) == 0 && loopClosed(hdr)
+			why = "an iteration can end without the insert (a condition sits in front of it)"
+			// the loop ranges over the overloaded class of classifyNodes
+			over := false
+			for x := range backwardAll(variadicFirst(ins)) {
+				if e, isE := x.(*ssa.Extract); isE && e.Index == 1 {
+					if cl, isC := e.Tuple.(*ssa.Call); isC && an.ShortCallee(&cl.Call) == "classifyNodes" {
+						over = true
+					}
+				}
+			}
+			if !over {
+				ok = false
+				why = "the loop does not range over the overloaded class"
+			}
+		}
+		r.Check(ok, "PATH", key, c.InstrPos(ins), "every overloaded node of the pool is recorded", "not every overloaded node is recorded as processed: "+why)
+	}
+}
+
+// isParamOrDerived: v is the parameter with that name (or loaded from its spill cell).
+func isParamOrDerived(fn *ssa.Function, v ssa.Value, name string) bool {
+	for _, s := range cellSources(v) {
+		if p, ok := s.(*ssa.Parameter); ok && p.Name() == name {
+			return true
+		}
+	}
+	return false
+}
+
+// variadicFirst: the first element passed in the variadic tail of the call.
+func variadicFirst(cl ssa.CallInstruction) ssa.Value {
+	as := cl.Common().Args
+	if es := variadicElems(as[len(as)-1]); len(es) > 0 {
+		return es[0]
+	}
+	return as[len(as)-1]
+}
